@@ -52,14 +52,30 @@ class GetItem(Contract):
     """slices are plain linear records equal to the ordinary string slice, never claiming circular topology"""
     file, qual = FILE, "CircularRecord.__getitem__"
     props = ("C15", "C07", "C08")
-    variants = ("slice-with-topology", "slice-no-topology")
+    variants = ("slice-with-topology", "slice-no-topology", "stepped-slice")
 
     def setup(self, ex, st, variant):
-        self_ = crec(ex, st, ann_keys=("topology", "molecule_type") if variant == "slice-with-topology" else ())
+        self_ = crec(ex, st, ann_keys=("topology", "molecule_type") if variant != "slice-no-topology" else ())
         lo, hi = VT(tm.V("lo", INT)), VT(tm.V("hi", INT))
-        return dict(self=self_, index=VSlice(lo, hi, None))
+        return dict(self=self_, index=VSlice(lo, hi, VT(tm.V("step", INT)) if variant == "stepped-slice" else None))
+
+    def requires(self, ex, st, a):
+        step = a["index"].step
+        return [] if step is None else [("step-not-zero", tm.ne(step.t, 0))]
 
     def ensures(self, ex, pre, st, a, result):
+        if a["index"].step is not None:
+            # a stepped slice is an ordinary linear slice too: Biopython's own text[lo:hi:step] in a plain record
+            lo, hi, step = a["index"].lo.t, a["index"].hi.t, a["index"].step.t
+            out = [("plain-linear-record", tm.B(isinstance(result, VObj) and result.kind == "SeqRecord")),
+                   ("text-is-string-slice", tm.eq(text(ex, st, result), tm.app("strided_text", STR, text(ex, pre, a["self"]), lo, hi, step)))]
+            items = ann_items(st, result)
+            out.append(("never-circular-topology", tm.ne(tm.lower(items["topology"].t), "circular") if "topology" in items else tm.TRUE))
+            out += same_fields(ex, pre, st, a["self"], result, ("id", "name", "description"))
+            out.append(("letter-annotations-sliced",
+                        tm.eq(st.get(st.get(result, "letter_annotations"), "rep").t,
+                              tm.app("strided_elems", STR, pre.get(pre.get(a["self"], "letter_annotations"), "rep").t, lo, hi, step))))
+            return out
         lo, hi = ex.slice_terms(a["index"])
         s = text(ex, pre, a["self"])
         n = tm.slen(s)
@@ -87,6 +103,8 @@ class GetItem(Contract):
         return [(st, r)]
 
     def model_terms(self, ex, st, a):
+        if a["index"].step is not None:
+            return dict(seq=text(ex, st, a["self"]), lo=a["index"].lo.t, hi=a["index"].hi.t, step=a["index"].step.t)
         lo, hi = ex.slice_terms(a["index"])
         return dict(seq=text(ex, st, a["self"]), lo=lo, hi=hi)
 
